@@ -118,6 +118,24 @@ def gen(rng, tier):
         op = 'ins' if kind == 'ins-op' else 'insm'
         line = "%s %s %s %s" % (op, KIND[d['kind']], S.args(d), " ".join(req_txt(p, n_) for p, n_ in reqs))
         out.append(Case(kind, line, dict(shape=d, reqs=[[p, n_] for p, n_ in reqs])))
+    # method level, surfaces and volumes: ONE direction requested with a count of 2 while the counts handed over for the other
+    # directions differ (a num_u / num_v / num_w mix-up in the methods must show); every direction in turn
+    rnd = 0
+    while rnd < (6 if tier == 'quick' else 60):
+        d = S.rand_volume(rng, maxp=3, max_interior=1) if rnd % 2 == 0 else S.rand_surface(rng, maxp=3, max_interior=2)
+        ds = S.dirs(d)
+        k = (rnd // 2) % len(ds)
+        p, kv, n_ = ds[k]
+        if p < 2:
+            continue
+        u = kv[p] + (kv[n_] - kv[p]) * F(rng.randint(1, 99), 101)
+        if u in kv:
+            continue
+        prm = [None] * len(ds); prm[k] = u
+        nums = [rng.choice([0, 1]) for _ in ds]; nums[k] = 2
+        line = "insm %s %s %s" % (KIND[d['kind']], S.args(d), req_txt(prm, nums))
+        out.append(Case('ins-method', line, dict(shape=d, reqs=[[prm, nums]])))
+        rnd += 1
     # the parameter value 0 (falsy in Python) strictly inside an un-normalised domain: it is a parameter like
     # any other
     for _ in range(10 if tier == 'quick' else 120):
